@@ -489,7 +489,9 @@ def _parse_angle(param_str):
                     "'": u.arcmin,
                     'd': u.deg,
                     'r': u.rad}
-    if param_str[-1] not in string.digits:
+    # a number may end with its decimal point ("1." is what the writer
+    # produces for precision=0)
+    if param_str[-1] not in string.digits + '.':
         unit = unit_mapping[param_str[-1]]
         return u.Quantity(float(param_str[:-1]), unit=unit)
     else:
